@@ -11,6 +11,7 @@ mod ops_codec;
 mod ops_curve;
 mod ops_extra;
 mod ops_hash;
+mod ops_robust;
 
 pub fn unhex(s: &str) -> Option<Vec<u8>> {
     if s == "-" {
@@ -50,6 +51,9 @@ fn run_line(line: &str) -> String {
         return r;
     }
     if let Some(r) = ops_hash::run(op, &args) {
+        return r;
+    }
+    if let Some(r) = ops_robust::run(op, &args) {
         return r;
     }
     "BADCASE".to_string()
